@@ -20,6 +20,7 @@ std::vector<Scene> scenes(int dim) {
     { Scene s; s.name = "circle 12 points radius 3 about (5,1)"; for (int i = 0; i < 12; ++i) { LD a = 0.5235987755982988L * i + 0.1L; s.pts.push_back(V3(5 + 3 * cosl(a), 1 + 3 * sinl(a), 0)); s.nrm.push_back(V3(cosl(a), sinl(a), 0)); } v.push_back(s); }
     { Scene s; s.name = "corridor + end wall 500 points over 20 m"; for (int i = 0; i < 500; ++i) { auto h = regref::pattern(i); if (i % 5 == 0) { s.pts.push_back(V3(10, 2 * h[1], 0)); s.nrm.push_back(V3(-1, 0, 0)); } else if (i % 2) { s.pts.push_back(V3(10 * h[0], 2, 0)); s.nrm.push_back(V3(0, -1, 0)); } else { s.pts.push_back(V3(10 * h[0], -2, 0)); s.nrm.push_back(V3(0, 1, 0)); } } v.push_back(s); }
     { Scene s; s.name = "corridor + end wall 500 points over 12 m, centred 17 m from the origin"; for (int i = 0; i < 500; ++i) { auto h = regref::pattern(i); V3 q; V3 n; if (i % 5 == 0) { q = V3(6, 2 * h[1], 0); n = V3(-1, 0, 0); } else if (i % 2) { q = V3(6 * h[0], 2, 0); n = V3(0, -1, 0); } else { q = V3(6 * h[0], -2, 0); n = V3(0, 1, 0); } s.pts.push_back(q + V3(12, -12, 0)); s.nrm.push_back(n); } v.push_back(s); }
+    { Scene s; s.name = "500 points, normals within +-0.008 rad of the diagonal (nearly collinear normal field)"; for (int i = 0; i < 500; ++i) { auto h = regref::pattern(i + 9); LD a = 0.7853981633974483L + 0.008L * h[2]; s.pts.push_back(V3(2 * h[0], 2 * h[1], 0)); s.nrm.push_back(V3(cosl(a), sinl(a), 0)); } v.push_back(s); }
     { Scene s; s.name = "mixed normal field 30 points"; for (int i = 0; i < 30; ++i) { auto h = regref::pattern(i + 3); LD a = 2.1L * i; s.pts.push_back(V3(4 * h[0], 3 * h[1], 0)); s.nrm.push_back(V3(cosl(a), sinl(a), 0)); } v.push_back(s); }
   } else {
     { Scene s; s.name = "box faces 6 points"; s.pts = {V3(1, 0.2, 0.1), V3(-1, -0.3, 0.4), V3(0.3, 1, -0.2), V3(-0.2, -1, 0.5), V3(0.1, 0.4, 1), V3(0.5, -0.6, -1)}; s.nrm = {V3(1, 0, 0), V3(-1, 0, 0), V3(0, 1, 0), V3(0, -1, 0), V3(0, 0, 1), V3(0, 0, -1)}; v.push_back(s); }
@@ -61,13 +62,17 @@ template <class PT> void run_scene(vf::Ctx& c, const char* tname, const Scene& s
     // source = motion^-1 (target) (+ deterministic perturbation): the exact motion source -> target is (R, tr)
     PointSet<PT> src, tgt; NormalSet<PT> nrm;
     for (size_t i = 0; i < n; ++i) { V3 q = sc.pts[i]; V3 p = R.transpose() * (q - tr); if (noise) { auto h = regref::pattern((unsigned)(i + 13)); p += 0.01L * V3(h[0], h[1], DIM == 3 ? h[2] : 0); } src.push_back(mkp<PT>(p)); tgt.push_back(mkp<PT>(q)); nrm.push_back(mkp<PT>(sc.nrm[i], true)); }
-    for (int cm = 0; cm < 4; ++cm) {
+    for (int cm = 0; cm < 5; ++cm) {
       // 0: identity correspondences; 1: subset (every other, reversed order); 2: target (and normals) stored permuted;
       // 3: many-to-one - every source point is matched to two target points (more correspondences than source points)
       std::vector<Correspondence> cor; PointSet<PT> tgtU = tgt; NormalSet<PT> nrmU = nrm;
       if (cm == 0) for (size_t i = 0; i < n; ++i) cor.emplace_back(i, i);
       else if (cm == 1) { for (size_t i = n; i-- > 0;) if (i % 2 == 0 || n <= 12) cor.emplace_back(i, i); }
       else if (cm == 2) { size_t m = 0; for (size_t k = 1; k < n; ++k) if (std::__gcd(k, n) == 1 && k > n / 3) { m = k; break; } if (!m) continue; for (size_t i = 0; i < n; ++i) { size_t j = (i * m + 1) % n; tgtU[j] = tgt[i]; nrmU[j] = nrm[i]; cor.emplace_back(i, j); } }
+      else if (cm == 4) {   // the target (and normals) stored with neighbours swapped two by two, except the first, the middle and the last entry which stay at their own index
+        if (n < 8) continue; std::vector<size_t> to(n); for (size_t i = 0; i < n; ++i) to[i] = i;
+        for (size_t i = 1; i + 2 < n; i += 2) { if (i == n / 2 || i + 1 == n / 2) continue; std::swap(to[i], to[i + 1]); }
+        for (size_t i = 0; i < n; ++i) { tgtU[to[i]] = tgt[i]; nrmU[to[i]] = nrm[i]; cor.emplace_back(i, to[i]); } }
       else { for (size_t i = 0; i < n; ++i) { auto h = regref::pattern((unsigned)(i + 401)); PT q = tgt[i]; for (int d = 0; d < DIM; ++d) q[d] += (S)(0.004 * h[d]); tgtU.push_back(q); nrmU.push_back(nrm[i]); } for (size_t i = 0; i < n; ++i) { cor.emplace_back(i, i); cor.emplace_back(i, n + i); } }
       if ((int)cor.size() < P) continue;
       // J, Y from the definition, in long double, on the data as stored in S
@@ -299,7 +304,7 @@ std::string vf_describe(const std::string& tier) {
   o.strs("scenes_2d", a).strs("scenes_3d", b);
   o.str("motions_thorough", "angles {0,1e-6,+-1e-4,1e-3,1e-2,-0.03,0.05,0.1}, 3D: six axes, two more translations (one of the size of the extent, one of 1e-6)");
   o.str("motions", "rotation angle {0,1e-4,1e-2,0.1} about z (3D: z, x, (1,-1,1)) x translation {0, (0.05,-0.02,0.03), 0.4 x extent}; exact and perturbed (0.01) sources");
-  o.str("correspondences", "identity, subset in reversed order, target and normals stored permuted (source index != target index), many-to-one (every source point matched to two target points: more correspondences than source points)");
+  o.str("correspondences", "identity, subset in reversed order, target and normals stored permuted (source index != target index), many-to-one (every source point matched to two target points: more correspondences than source points), neighbours swapped two by two with the first / middle / last entry in place");
   o.str("overloads", "index-based on a fresh estimator, index-based on one estimator reused for the whole scene, aligned, preconditioned by 1e-3 and 1e3 with setPreconditioner");
   o.str("S", std::string("every sequence of ") + (tier == "thorough" ? "6" : "3") + " operations out of 18 (all / half of the points x index-based / aligned x {find on sets scaled as configured, setPreconditioner with scale 1, 0.05, 40 then find}; assign the estimator to another long-lived estimator and continue with that one; continue with a copy-constructed estimator) on ONE estimator, 8 point types, 40-point square / 96-point box with a 0.09 rad motion and perturbed sources; every answer within twice the forward-error bound of the answer of a fresh estimator");
   o.str("all_sizes", "every correspondence count from 2P to 500 on the 500-point corridor / room scene (0.02 rad motion, perturbed sources), aligned and index-based overloads on fresh estimators and index-based on one estimator reused for every size, all 8 point types, vs the QR reference");
